@@ -71,6 +71,48 @@ def mirror_failure(ctx, key, desc, prefix=None):
     return False
 
 
+def cols(arr, n):
+    """columns of a sample array holding n states (dim-1 chains come back as a 1-D array)"""
+    arr = np.asarray(arr, dtype=float)
+    if arr.ndim == 1:
+        arr = arr.reshape(1, -1) if arr.shape[0] == n else arr.reshape(-1, 1)
+    return [arr[:, j] for j in range(arr.shape[1])]
+
+
+def flat_equal(c1, c2):
+    return len(c1) == len(c2) and all(same(np.ravel(x), np.ravel(y)) for x, y in zip(c1, c2))
+
+
+def clean_batch_dir(ckpath):
+    d = os.path.join(os.path.dirname(ckpath), "batches")
+    os.makedirs(d, exist_ok=True)
+    for f in os.listdir(d):
+        os.remove(os.path.join(d, f))
+    return d + "/"
+
+
+def read_batch_files(bdir):
+    """list (one entry per file, in file-name order) of the list of states the file holds"""
+    out = []
+    for f in sorted(os.listdir(bdir)):
+        if f.endswith(".npz"):
+            with np.load(os.path.join(bdir, f)) as z:
+                arr = np.asarray(z["samples"])
+            out.append([np.array(row, dtype=float) for row in arr.reshape(arr.shape[0], -1)] if arr.size else [])
+    return out
+
+
+def x0_variants(dim):
+    """(name, start as given, the same numbers as float64)"""
+    pat = [3, -2, 1, 0, 2, -1]
+    ints = [pat[i % 6] for i in range(dim)]
+    bits = [1 - (i % 2) for i in range(dim)]
+    V = [("int64", np.array(ints, dtype=np.int64)), ("int32", np.array(ints, dtype=np.int32)),
+         ("float32", np.array(ints, dtype=np.float32)), ("bool", np.array(bits, dtype=bool)),
+         ("list-of-int", list(ints))]
+    return [(n, v, np.array(v, dtype=np.float64)) for n, v in V]
+
+
 def advance_private_rng(k):
     """the fresh sampler that loads a checkpoint is constructed at some other position of scipy's
     private (Fortran) generator than the original one was"""
@@ -133,9 +175,8 @@ def run(ctx):
     finally:
         np.random.set_state(saved_np_state)
         try:
-            for f in os.listdir(tmpdir):
-                os.remove(os.path.join(tmpdir, f))
-            os.rmdir(tmpdir)
+            import shutil
+            shutil.rmtree(tmpdir, ignore_errors=True)
         except Exception:
             pass
 
@@ -216,7 +257,10 @@ def _run(ctx, cuqi, M, thorough, rng, ckpath):
         for _ in range(rng.randint(3, 9)):
             r = rng.random()
             if r < 0.30:
-                ops.append(f"s{rng.randint(0, 6)}")
+                if rng.random() < 0.35:
+                    ops.append(("b", rng.randint(0, 7), rng.choice([1, 1, 2, 3, 4, 9])))
+                else:
+                    ops.append(f"s{rng.randint(0, 6)}")
             elif r < 0.50:
                 ops.append(("w", rng.randint(0, 9), rng.choice(TFS)))
             elif r < 0.62:
@@ -235,9 +279,11 @@ def _run(ctx, cuqi, M, thorough, rng, ckpath):
         return ops
 
     def op_str(op):
-        return op if isinstance(op, str) else f"w{op[1]}@{q(op[2])}"
+        if isinstance(op, str):
+            return op
+        return f"s{op[1]}b{op[2]}" if op[0] == "b" else f"w{op[1]}@{q(op[2])}"
 
-    def run_program_impl(mk, ops, snapshot):
+    def run_program_impl(mk, ops, snapshot, fmt_pt=None):
         """execute an op program on the implementation; `mk(events, tunes)` builds a fresh sampler
         whose callback/tune calls are logged into the shared lists; returns list of snapshot strings"""
         events, tunes, out = [], [], []
@@ -266,6 +312,11 @@ def _run(ctx, cuqi, M, thorough, rng, ckpath):
                         out.append("refused")
                 elif op == "reinit":
                     s.reinitialize()
+                elif isinstance(op, tuple) and op[0] == "b":
+                    bdir = clean_batch_dir(ckpath)
+                    s.sample(op[1], batch_size=op[2], sample_path=bdir)
+                    files = read_batch_files(bdir)
+                    out.append("F=" + ("|".join(cj(fmt_pt(x) for x in f) for f in files) if files else "_"))
                 elif isinstance(op, tuple):
                     s.warmup(op[1], tune_freq=op[2])
                 else:
@@ -319,7 +370,7 @@ def _run(ctx, cuqi, M, thorough, rng, ckpath):
         desc = {"sampler": "Toy(Sampler)", "x0": x0, "scale": scale, "ops": [op_str(o) for o in ops], "stream": stream[:24]}
         ctx.case("base-class-program", desc)
         script = Script(stream)
-        got, err = run_program_impl(toy_factory(dim, x0, scale, script), ops, toy_snapshot)
+        got, err = run_program_impl(toy_factory(dim, x0, scale, script), ops, toy_snapshot, fmt_point)
         if got != out:
             key = "exp:Sampler(base):program"
             ctx.disagree(key, desc, out[:400], (got + (" " + err if err else ""))[:400], "base-class record keeping differs from the model")
@@ -401,7 +452,7 @@ def _run(ctx, cuqi, M, thorough, rng, ckpath):
             probe._ensure_initialized() if hasattr(probe, "_ensure_initialized") else None
             x0id = ids(probe.initial_point)
             reseed(seed + 31 * rep)
-            got, err = run_program_impl(mk2, ops, snap)
+            got, err = run_program_impl(mk2, ops, snap, lambda x, ids=ids: str(ids(x)))
             stream = [v for pair in steplog for v in pair]
             rlines.append(f"exp replay {x0id} _ {';'.join(op_str(o) for o in ops)} {cj(map(str, stream))}")
             rmeta.append((name, [op_str(o) for o in ops], got, err))
@@ -416,7 +467,7 @@ def _run(ctx, cuqi, M, thorough, rng, ckpath):
             gs, ms = got.split("#"), out.split("#")
             ok = len(gs) == len(ms)
             for g, m in zip(gs, ms):
-                if g in ("refused", "accepted") or m in ("refused", "accepted"):
+                if g in ("refused", "accepted") or m in ("refused", "accepted") or g.startswith("F=") or m.startswith("F="):
                     ok = ok and g == m
                     continue
                 gd, md = parse_snapshot(g), parse_snapshot(m)
@@ -464,6 +515,44 @@ def _run(ctx, cuqi, M, thorough, rng, ckpath):
             impl = "C=" + cj(str(ids(c)) for c in res["chain"]) + ";E=" + cj(f"{ids(x)}@{i}" for x, i in res["events"])
             llines.append(f"leg {int(view)} {int(cbflag)} {N} {Nb} {x0id} {cj(map(str, outs_ids))}")
             lmeta.append((keyb, desc, impl))
+    # G1/G2 on the stateless interface: start given as int64 / int32 / float32->skipped / bool / list
+    for cfg in lcfgs:
+        N, Nb = (11, 2) if cfg["accepts"](11, 2) else (5, 0)
+        keyb = f"legacy:{cfg['name']}:{cfg['method']}"
+        try:
+            base = cfg["mk"](None)
+            d0 = len(np.atleast_1d(base.x0))
+        except Exception:
+            continue
+        for vname, given, as_float in x0_variants(d0):
+            if vname == "float32":
+                continue
+            desc = {"sampler": cfg["name"], "method": cfg["method"], "N": N, "Nb": Nb, "x0": vname, "values": [float(t) for t in as_float]}
+            ctx.case("legacy-dtype", desc)
+            res = {}
+            for tag, xv in (("float64", as_float), ("given", given)):
+                cfg2 = dict(cfg)
+                snap = np.array(xv, copy=True) if isinstance(xv, np.ndarray) else list(xv)
+                def mk(cb, xv=xv, cfg=cfg):
+                    s_ = cfg["mk"](cb)
+                    s_.x0 = xv
+                    return s_
+                cfg2["mk"] = mk
+                r = run_legacy(cfg2, N, Nb, seed)
+                r["snap_ok"] = (np.array_equal(xv, snap) and (not isinstance(xv, np.ndarray) or xv.dtype == snap.dtype))
+                res[tag] = r
+            if res["float64"]["error"] is not None:
+                continue
+            if res["given"]["error"] is not None:
+                msg = f"{keyb}: x0 given as {vname} is refused ({res['given']['error'][:80]}) while its float64 version is accepted"
+                if msg not in ctx.notes:
+                    ctx.note(msg)
+                continue
+            if not chains_equal(res["given"]["chain"], res["float64"]["chain"]):
+                ctx.fail(f"{keyb}:dtype-chain:{vname}", desc, "chain equal to the run started from the float64 version of the same numbers",
+                         f"first difference at {first_diff(res['given']['chain'], res['float64']['chain'])}", "the dtype of x0 changes the recorded chain")
+            if not res["given"]["snap_ok"]:
+                ctx.fail(f"{keyb}:caller-array", desc, "x0 passed by the caller is not modified", "modified", "sampling modified the caller's x0")
     louts = ctx.lean.drive(llines)
     for (keyb, desc, impl), out in zip(lmeta, louts):
         ctx.case("legacy-tie", desc, nontrivial=False)
@@ -709,6 +798,119 @@ def oracle_stateful(ctx, cuqi, keyb, clsname, mk, N, K, tf, ckpath, seed, script
                 fail("callback", "callback state = chain entry at the index passed", f"first difference at {first_diff([x for x, _ in log], stored)}",
                      "callback state differs from the recorded chain entry at that index", {"ops": opnames, "sampler_object": which})
                 break
+
+    # ---- batching: `sample(n, batch_size=b, sample_path=…)` must leave chain, callback indices and
+    #      get_samples() exactly as the run without batching; files = the slices of this call's states
+    import inspect
+    n1 = max(1, N - N // 3)
+    for b in sorted({0, 1, 3, n1, N + 2, max(2, n1 - 1)}):
+        dsc = {"batch_size": b, "ops": [f"warmup({K})" if K else "-", f"sample({n1}, batch_size={b})", "get_samples()", f"sample({N - n1})", "get_samples()"]}
+        try:
+            evb = []
+            s, scb = start(lambda x, i: evb.append((np.array(x, dtype=float, copy=True), int(i))))
+            if K:
+                s.warmup(K, tune_freq=tf)
+            bdir = clean_batch_dir(ckpath)
+            s.sample(n1, batch_size=b, sample_path=bdir)
+            files = read_batch_files(bdir)
+            mid = np.array(s.get_samples().samples, dtype=float, copy=True) if K + n1 > 0 else np.zeros((0, 0))
+            s.sample(N - n1)
+            fin = np.array(s.get_samples().samples, dtype=float, copy=True) if K + N > 0 else np.zeros((0, 0))
+            cbch = chain(s)
+        except Exception as e:
+            fail("batch", "batched sampling runs", repr(e)[:160], "sample with batch_size raised", dsc)
+            continue
+        if not chains_equal(cbch, ref):
+            fail("batch", "stored chain identical to the run without batching", f"{len(cbch)} stored states, first difference at {first_diff(cbch, ref)}",
+                 "batching changes the recorded chain", dsc)
+        if K + n1 > 0 and not flat_equal(cols(mid, K + n1), ref[:K + n1]):
+            fail("batch", f"get_samples() after the batched call returns all {K + n1} states in order", list(mid.shape), "get_samples() after batching loses or reorders states", dsc)
+        if K + N > 0 and not flat_equal(cols(fin, K + N), ref):
+            fail("batch", f"get_samples() returns all {K + N} states in order", list(fin.shape), "get_samples() after batching and further sampling loses or reorders states", dsc)
+        if [i for _, i in evb] != list(range(K + N)):
+            fail("batch", f"callback indices 0..{K + N - 1}", [i for _, i in evb][:30], "callback indices drift when batching", dsc)
+        want_files = [ref[K + j * b: K + (j + 1) * b] for j in range(n1 // b)] if b > 0 else []
+        if len(files) != len(want_files) or any(not flat_equal(f, w) for f, w in zip(files, want_files)):
+            fail("batch", f"{len(want_files)} files holding consecutive slices of {b} states", f"{len(files)} files", "batch files do not hold the corresponding slices of the chain", dsc)
+
+    # ---- G1/G2/G3: start given as int64 / int32 / float32 / bool / list: the recorded and returned chain are the
+    #      float64 states actually visited and equal the run from the float64 version of the same numbers;
+    #      the caller's start array is not modified; the array returned by get_samples() is not aliased to the history
+    try:
+        probe = new(None)
+        dim0 = int(probe.dim)
+    except Exception:
+        dim0 = None
+    if dim0:
+        Nd = min(N, 8)
+
+        def run_from(x0v, sd):
+            evd = []
+            s, scd = start(lambda x, i, evd=evd: evd.append((np.array(x, dtype=float, copy=True), int(i))))
+            snap0 = np.array(x0v, copy=True) if isinstance(x0v, np.ndarray) else list(x0v)
+            s.initial_point = x0v
+            if not scripted:
+                reseed(sd)
+            s.sample(Nd)
+            got = np.array(s.get_samples().samples, dtype=float, copy=True)
+            return chain(s), got, evd, s, x0v, snap0
+
+        for vname, given, as_float in x0_variants(dim0):
+            if scripted and vname == "list-of-int":
+                continue   # the harness' own Toy.step adds arrays
+            # pick a random stream under which the first transition is rejected and a later one accepted
+            # (the first recorded state is then the start object itself), if the sampler rejects at all
+            sd, ref64 = seed + 2, None
+            for j in range(1 if scripted else 6):
+                try:
+                    r64 = run_from(as_float, seed + 2 + j)
+                except Exception as e:
+                    r64 = repr(e)[:160]
+                    break
+                acc = [float(np.sum(a)) for a in r64[3]._acc[1:]]
+                if ref64 is None or (acc and acc[0] == 0 and any(a > 0 for a in acc[1:])):
+                    ref64, sd = r64, seed + 2 + j
+                    if acc and acc[0] == 0 and any(a > 0 for a in acc[1:]):
+                        break
+            if ref64 is None or isinstance(r64, str) and ref64 is None:
+                continue   # this start is not acceptable to the sampler at all
+            acc64 = [float(np.sum(a)) for a in ref64[3]._acc[1:]]
+            dsc = {"initial_point": vname, "values": [float(t) for t in as_float], "ops": [f"sample({Nd})", "get_samples()"],
+                   "first_transition_rejected": bool(acc64 and acc64[0] == 0)}
+            try:
+                ch, got, evd, s, x0v, snap0 = run_from(given, sd)
+            except Exception as e:
+                msg = f"{keyb}: start given as {vname} is refused ({repr(e)[:100]}) while its float64 version is accepted"
+                if msg not in ctx.notes:
+                    ctx.note(msg)
+                continue
+            visited = [x for x, _ in evd]
+            if not flat_equal(cols(got, len(visited)), visited):
+                fail("dtype-returned", "get_samples() returns the float64 states the chain visited",
+                     f"first difference at column {first_diff([np.ravel(c) for c in cols(got, len(visited))], [np.ravel(v) for v in visited])}",
+                     "returned samples are not the states visited (dtype of the start leaks into the sample array)", dsc)
+            if not chains_equal(ch, visited):
+                fail("dtype-returned", "stored chain = states handed to the callback", f"first difference at {first_diff(ch, visited)}", "stored chain differs from the visited states", dsc)
+            if vname != "float32" and not chains_equal(ch, ref64[0]):
+                # integers / booleans are exact in float64 and promote in every float operation: a difference means
+                # a state buffer allocated with the start's dtype (float32 legitimately computes in lower precision)
+                fail(f"dtype-chain:{vname}", "chain equal to the run started from the float64 version of the same numbers", f"first difference at {first_diff(ch, ref64[0])}",
+                     "the dtype of the initial point changes the chain (states truncated into a buffer of the start's dtype)", dsc)
+            if isinstance(x0v, np.ndarray) and not (x0v.dtype == snap0.dtype and np.array_equal(x0v, snap0)):
+                fail("caller-array", "initial_point array passed by the caller is not modified", "modified", "sampling modified the caller's initial_point array", dsc)
+            if isinstance(x0v, list) and x0v != snap0:
+                fail("caller-array", "initial_point list passed by the caller is not modified", "modified", "sampling modified the caller's initial_point", dsc)
+            # returned array not aliased to the history
+            try:
+                out1 = s.get_samples().samples
+                keep = np.array(out1, dtype=float, copy=True)
+                out1[...] = 12345.0
+                again = np.array(s.get_samples().samples, dtype=float)
+                if not np.array_equal(again, keep):
+                    fail("alias", "get_samples() output independent of the history", "history changed by writing into the returned array",
+                         "the array returned by get_samples() aliases the stored chain", dsc)
+            except Exception:
+                pass
 
     # ---- split and checkpoint at every position
     for p in range(N + 1):
